@@ -89,6 +89,129 @@ def mutate_and_check(rep, pa, desc, src_name, src, der_name, der):
     return ok
 
 
+def one_case(rep, pa, rng, case):
+    """every entry point on one generated continuum (also what --replay re-runs)"""
+    from pyannote.core import Segment
+    from sortedcontainers import SortedSet
+    desc = {"units": case["units"], "dissim": case["spec"]}
+
+    def fresh():
+        return gen.build_continuum(pa, case["units"]), gen.make_dissim(pa, case["spec"])
+    combined = case["spec"][0] == "comb"
+    entry_points = []
+
+    def ep(name, f, returns_cont=False, may_change_bws=False):
+        entry_points.append((name, f, returns_cont, may_change_bws))
+    ep("get_best_alignment", lambda c, d: c.get_best_alignment(d))
+    ep("get_best_soft_alignment", lambda c, d: c.get_best_soft_alignment(d))
+    ep("get_fast_alignment", lambda c, d: c.get_fast_alignment(d, 2))
+    ep("Alignment.compute_disorder", lambda c, d: c.get_best_alignment(d).compute_disorder(d))
+    ep("get_first_window", lambda c, d: c.get_first_window(d, 1)[0], True)
+    ep("compute_gamma", lambda c, d: c.compute_gamma(d, n_samples=2))
+    ep("compute_gamma(soft)", lambda c, d: c.compute_gamma(d, n_samples=2, soft=True))
+    ep("compute_gamma(fast)", lambda c, d: c.compute_gamma(d, n_samples=2, fast=True), False, True)
+    ep("compute_gamma(shuffle,precision)", lambda c, d: c.compute_gamma(d, n_samples=2, precision_level=0.9, sampler=pa.ShuffleContinuumSampler()))
+    ep("compute_gamma(ground truth)", lambda c, d: c.compute_gamma(d, n_samples=2, ground_truth_annotators=SortedSet(list(c.annotators)[:2])))
+    if combined:
+        ep("gamma_cat", lambda c, d: c.compute_gamma(d, n_samples=2).gamma_cat)
+        ep("gamma_k", lambda c, d: c.compute_gamma(d, n_samples=2).gamma_k(list(c.categories)[0]))
+        ep("gamma_k_disorder", lambda c, d: c.get_best_alignment(d).gamma_k_disorder(d, None))
+    ep("measure_best_window_size", lambda c, d: c.measure_best_window_size(d), False, True)
+    ep("copy", lambda c, d: c.copy(), True)
+    ep("copy_flush", lambda c, d: c.copy_flush(), True)
+    ep("merge(out of place)", lambda c, d: c.merge(c.copy()), True)
+    ep("__add__", lambda c, d: c + c.copy(), True)
+    # degenerate arguments: nothing to merge (no annotator at all / annotators without units / the flushed copy) must still give a fresh object
+    ep("merge(empty continuum)", lambda c, d: c.merge(pa.Continuum()), True)
+    ep("__add__(empty continuum)", lambda c, d: c + pa.Continuum(), True)
+    ep("merge(flushed copy)", lambda c, d: c.merge(c.copy_flush()), True)
+    ep("merge(self)", lambda c, d: c.merge(c), True)
+
+    def samp(cls, **kw):
+        def f(c, d):
+            s = cls(**kw)
+            s.init_sampling(c)
+            return s.sample_from_continuum
+        return f
+    ep("StatisticalContinuumSampler", samp(pa.StatisticalContinuumSampler), True)
+    ep("ShuffleContinuumSampler(int)", samp(pa.ShuffleContinuumSampler, pivot_type="int_pivot"), True)
+    ep("ShuffleContinuumSampler(float)", samp(pa.ShuffleContinuumSampler, pivot_type="float_pivot"), True)
+    ep("CorpusShufflingTool(categories=)", lambda c, d: pa.CorpusShufflingTool(0.5, c, categories=["zz_extra"]).corpus_from_reference(2), True)
+    ep("corpus_shuffle(all)", lambda c, d: pa.CorpusShufflingTool(0.5, c).corpus_shuffle(2, shift=True, false_pos=True, false_neg=True, split=True, cat_shuffle=True), True)
+    ep("corpus_shuffle(include_ref)", lambda c, d: pa.CorpusShufflingTool(0.3, c).corpus_shuffle(["x", "y"], shift=True, include_ref=True), True)
+    for name, f, returns_cont, may_bws in entry_points:
+        c, d = fresh()
+        np.random.seed(rng.randrange(2 ** 31))
+        sc, sd = snap_cont(c), snap_dissim(pa, d)
+        try:
+            out = f(c, d)
+        except Exception as e:
+            rep.case()
+            rep.violation("raises:" + name, dict(desc, entry=name, error=repr(e)), "%s raised %r" % (name, e))
+            continue
+        sc2, sd2 = snap_cont(c), snap_dissim(pa, d)
+        if may_bws:
+            sc2["bws"] = sc["bws"]
+        ok = True
+        if sc != sc2:
+            diff = [k for k in sc if sc[k] != sc2[k]]
+            rep.violation("input-continuum-modified:" + name, dict(desc, entry=name, fields=diff), "%s modified its input continuum (%s)" % (name, ", ".join(diff)))
+            ok = False
+        if sd != sd2:
+            diff = [k for k in sd if sd[k] != sd2.get(k)]
+            rep.violation("input-dissimilarity-modified:" + name, dict(desc, entry=name, fields=diff), "%s modified the dissimilarity (%s)" % (name, ", ".join(diff)))
+            ok = False
+        if returns_cont and isinstance(out, pa.Continuum):
+            ok = check_separated(rep, [("input", c), ("result of " + name, out)], dict(desc, entry=name)) and ok
+            ok = mutate_and_check(rep, pa, dict(desc, entry=name), "input", c, name + "#result", out) and ok
+        rep.count("entry=" + name)
+        rep.case(sample={"entry": name, "dissim": case["spec"], "unchanged": ok}, nontrivial_key=(repr(case["units"]), case["spec"], name) if returns_cont else None)
+    # __getitem__ returns deep copies
+    c, d = fresh()
+    a0 = list(c.annotators)[0]
+    s0 = snap_cont(c)
+    got = c[a0]
+    got.add(pa.continuum.Unit(Segment(999.0, 1000.0), "zz"))
+    if got:
+        got.pop(0)
+    if snap_cont(c) != s0:
+        rep.violation("not-independent:__getitem__", desc, "mutating continuum[annotator] changed the continuum")
+    rep.case(sample={"entry": "__getitem__"})
+    # in-place merge changes only its receiver
+    c, d = fresh()
+    other = c.copy()
+    s_other = snap_cont(other)
+    c.merge(other, in_place=True)
+    if snap_cont(other) != s_other:
+        rep.violation("input-continuum-modified:merge(in place)", desc, "in-place merge modified its argument")
+    rep.case(sample={"entry": "merge(in place)"})
+    # the merged result (out of place, +, in place) must be independent of the ARGUMENT too, including for annotators the argument only
+    # declares (no unit yet) and the receiver does not know: a unit added for them on one side must not appear on the other
+    for how in ("merge", "+", "in-place"):
+        c, d = fresh()
+        arg = pa.Continuum()
+        arg.add_annotator("zz_declared_only")
+        arg.add("zz_with_unit", Segment(3.0, 4.0), "L")
+        if how == "merge":
+            res = c.merge(arg)
+        elif how == "+":
+            res = c + arg
+        else:
+            c.merge(arg, in_place=True)
+            res = c
+        entry = "merge argument (%s)" % how
+        rep.count("entry=" + entry)
+        rep.case(sample={"entry": entry})
+        check_separated(rep, [("argument", arg), ("result of " + entry, res)], dict(desc, entry=entry))
+        for (mname, m, oname, o) in (("result", res, "argument", arg), ("argument", arg, "result", res)):
+            before = snap_cont(o)
+            m.add("zz_declared_only", Segment(7.0, 9.0), "L")
+            m.add("zz_with_unit", Segment(17.0, 19.0), "M")
+            if snap_cont(o) != before:
+                rep.violation("not-independent:" + entry, dict(desc, entry=entry, mutated=mname, changed=oname),
+                              "after %s, adding units to the %s changed the %s" % (entry, mname, oname))
+
+
 def run(rep, tier, seed, pa):
     from pyannote.core import Segment
     from sortedcontainers import SortedSet
@@ -99,123 +222,7 @@ def run(rep, tier, seed, pa):
     for case in cases:
         if any(len(u) == 0 for u in case["units"]):
             continue
-        desc = {"units": case["units"], "dissim": case["spec"]}
-
-        def fresh():
-            return gen.build_continuum(pa, case["units"]), gen.make_dissim(pa, case["spec"])
-        combined = case["spec"][0] == "comb"
-        entry_points = []
-
-        def ep(name, f, returns_cont=False, may_change_bws=False):
-            entry_points.append((name, f, returns_cont, may_change_bws))
-        ep("get_best_alignment", lambda c, d: c.get_best_alignment(d))
-        ep("get_best_soft_alignment", lambda c, d: c.get_best_soft_alignment(d))
-        ep("get_fast_alignment", lambda c, d: c.get_fast_alignment(d, 2))
-        ep("Alignment.compute_disorder", lambda c, d: c.get_best_alignment(d).compute_disorder(d))
-        ep("get_first_window", lambda c, d: c.get_first_window(d, 1)[0], True)
-        ep("compute_gamma", lambda c, d: c.compute_gamma(d, n_samples=2))
-        ep("compute_gamma(soft)", lambda c, d: c.compute_gamma(d, n_samples=2, soft=True))
-        ep("compute_gamma(fast)", lambda c, d: c.compute_gamma(d, n_samples=2, fast=True), False, True)
-        ep("compute_gamma(shuffle,precision)", lambda c, d: c.compute_gamma(d, n_samples=2, precision_level=0.9, sampler=pa.ShuffleContinuumSampler()))
-        ep("compute_gamma(ground truth)", lambda c, d: c.compute_gamma(d, n_samples=2, ground_truth_annotators=SortedSet(list(c.annotators)[:2])))
-        if combined:
-            ep("gamma_cat", lambda c, d: c.compute_gamma(d, n_samples=2).gamma_cat)
-            ep("gamma_k", lambda c, d: c.compute_gamma(d, n_samples=2).gamma_k(list(c.categories)[0]))
-            ep("gamma_k_disorder", lambda c, d: c.get_best_alignment(d).gamma_k_disorder(d, None))
-        ep("measure_best_window_size", lambda c, d: c.measure_best_window_size(d), False, True)
-        ep("copy", lambda c, d: c.copy(), True)
-        ep("copy_flush", lambda c, d: c.copy_flush(), True)
-        ep("merge(out of place)", lambda c, d: c.merge(c.copy()), True)
-        ep("__add__", lambda c, d: c + c.copy(), True)
-        # degenerate arguments: nothing to merge (no annotator at all / annotators without units / the flushed copy) must still give a fresh object
-        ep("merge(empty continuum)", lambda c, d: c.merge(pa.Continuum()), True)
-        ep("__add__(empty continuum)", lambda c, d: c + pa.Continuum(), True)
-        ep("merge(flushed copy)", lambda c, d: c.merge(c.copy_flush()), True)
-        ep("merge(self)", lambda c, d: c.merge(c), True)
-
-        def samp(cls, **kw):
-            def f(c, d):
-                s = cls(**kw)
-                s.init_sampling(c)
-                return s.sample_from_continuum
-            return f
-        ep("StatisticalContinuumSampler", samp(pa.StatisticalContinuumSampler), True)
-        ep("ShuffleContinuumSampler(int)", samp(pa.ShuffleContinuumSampler, pivot_type="int_pivot"), True)
-        ep("ShuffleContinuumSampler(float)", samp(pa.ShuffleContinuumSampler, pivot_type="float_pivot"), True)
-        ep("CorpusShufflingTool(categories=)", lambda c, d: pa.CorpusShufflingTool(0.5, c, categories=["zz_extra"]).corpus_from_reference(2), True)
-        ep("corpus_shuffle(all)", lambda c, d: pa.CorpusShufflingTool(0.5, c).corpus_shuffle(2, shift=True, false_pos=True, false_neg=True, split=True, cat_shuffle=True), True)
-        ep("corpus_shuffle(include_ref)", lambda c, d: pa.CorpusShufflingTool(0.3, c).corpus_shuffle(["x", "y"], shift=True, include_ref=True), True)
-        for name, f, returns_cont, may_bws in entry_points:
-            c, d = fresh()
-            np.random.seed(rng.randrange(2 ** 31))
-            sc, sd = snap_cont(c), snap_dissim(pa, d)
-            try:
-                out = f(c, d)
-            except Exception as e:
-                rep.case()
-                rep.violation("raises:" + name, dict(desc, entry=name, error=repr(e)), "%s raised %r" % (name, e))
-                continue
-            sc2, sd2 = snap_cont(c), snap_dissim(pa, d)
-            if may_bws:
-                sc2["bws"] = sc["bws"]
-            ok = True
-            if sc != sc2:
-                diff = [k for k in sc if sc[k] != sc2[k]]
-                rep.violation("input-continuum-modified:" + name, dict(desc, entry=name, fields=diff), "%s modified its input continuum (%s)" % (name, ", ".join(diff)))
-                ok = False
-            if sd != sd2:
-                diff = [k for k in sd if sd[k] != sd2.get(k)]
-                rep.violation("input-dissimilarity-modified:" + name, dict(desc, entry=name, fields=diff), "%s modified the dissimilarity (%s)" % (name, ", ".join(diff)))
-                ok = False
-            if returns_cont and isinstance(out, pa.Continuum):
-                ok = check_separated(rep, [("input", c), ("result of " + name, out)], dict(desc, entry=name)) and ok
-                ok = mutate_and_check(rep, pa, dict(desc, entry=name), "input", c, name + "#result", out) and ok
-            rep.count("entry=" + name)
-            rep.case(sample={"entry": name, "dissim": case["spec"], "unchanged": ok}, nontrivial_key=(repr(case["units"]), case["spec"], name) if returns_cont else None)
-        # __getitem__ returns deep copies
-        c, d = fresh()
-        a0 = list(c.annotators)[0]
-        s0 = snap_cont(c)
-        got = c[a0]
-        got.add(pa.continuum.Unit(Segment(999.0, 1000.0), "zz"))
-        if got:
-            got.pop(0)
-        if snap_cont(c) != s0:
-            rep.violation("not-independent:__getitem__", desc, "mutating continuum[annotator] changed the continuum")
-        rep.case(sample={"entry": "__getitem__"})
-        # in-place merge changes only its receiver
-        c, d = fresh()
-        other = c.copy()
-        s_other = snap_cont(other)
-        c.merge(other, in_place=True)
-        if snap_cont(other) != s_other:
-            rep.violation("input-continuum-modified:merge(in place)", desc, "in-place merge modified its argument")
-        rep.case(sample={"entry": "merge(in place)"})
-        # the merged result (out of place, +, in place) must be independent of the ARGUMENT too, including for annotators the argument only
-        # declares (no unit yet) and the receiver does not know: a unit added for them on one side must not appear on the other
-        for how in ("merge", "+", "in-place"):
-            c, d = fresh()
-            arg = pa.Continuum()
-            arg.add_annotator("zz_declared_only")
-            arg.add("zz_with_unit", Segment(3.0, 4.0), "L")
-            if how == "merge":
-                res = c.merge(arg)
-            elif how == "+":
-                res = c + arg
-            else:
-                c.merge(arg, in_place=True)
-                res = c
-            entry = "merge argument (%s)" % how
-            rep.count("entry=" + entry)
-            rep.case(sample={"entry": entry})
-            check_separated(rep, [("argument", arg), ("result of " + entry, res)], dict(desc, entry=entry))
-            for (mname, m, oname, o) in (("result", res, "argument", arg), ("argument", arg, "result", res)):
-                before = snap_cont(o)
-                m.add("zz_declared_only", Segment(7.0, 9.0), "L")
-                m.add("zz_with_unit", Segment(17.0, 19.0), "M")
-                if snap_cont(o) != before:
-                    rep.violation("not-independent:" + entry, dict(desc, entry=entry, mutated=mname, changed=oname),
-                                  "after %s, adding units to the %s changed the %s" % (entry, mname, oname))
+        one_case(rep, pa, rng, case)
     heap_histories(rep, pa, rng, 60 if tier == "quick" else 600)
 
 
@@ -286,5 +293,14 @@ def heap_histories(rep, pa, rng, count):
 
 
 def replay(rep, data, pa):
-    print("  C14 replay: entry point %r on the recorded input; re-run ./check C14 quick with VERIF_SEED=%s" % (data.get("entry"), data.get("seed")))
-    return False
+    """re-runs every entry point on the recorded continuum / dissimilarity and reports the violations found now"""
+    if not data.get("units"):
+        print("  C14 replay: this record carries no continuum (heap-history or harness record): re-run ./check C14 quick with VERIF_SEED=%s" % data.get("seed"))
+        return False
+    ac.install_backend_hooks()
+    case = {"units": [[tuple(u) for u in us] for us in data["units"]], "spec": tuple(data["dissim"]), "pattern": "replay", "unlabelled": False}
+    one_case(rep, pa, rng_for(data.get("seed", 0), "C14-replay"), case)
+    for key, path, what in rep.violations:
+        print("  (%s) %s" % (key, what))
+    print("  recorded: entry point %r" % (data.get("entry"),))
+    return not rep.violations
